@@ -317,6 +317,50 @@ func (e *Exec) stepUpdateById(op *Op, mc *model.Coll) {
 	if mc != nil {
 		old = mc.Docs[op.ID]
 	}
+	if op.K == "UpdateById" && op.UpdStyle == "nil" && old != nil {
+		// an update function that returns nil: refused without effect, or the document is
+		// removed, or it is left as it was - and whichever it is, counts and indexes follow
+		before := e.snap(true)
+		var rec []updRecord
+		err := e.invoke(true, func() error { return e.DB.UpdateById(op.Coll, op.ID, makeUpdater(op, &rec)) })
+		switch e.judge(err, "maybe", []string{"C01", "C12"}, what) {
+		case outOK:
+			e.probe("update-function-returns-nil")
+			if len(rec) != 1 {
+				e.fail([]string{"C03", "C12"}, "C03/callback-count", fmt.Sprintf("%s: updater ran %d times", what, len(rec)), nil)
+				return
+			}
+			got, _, rerr := e.readColl(op.Coll)
+			if e.V != nil {
+				return
+			}
+			if rerr != nil {
+				e.fail([]string{"C01", "C11"}, "C01/readback-error", fmt.Sprintf("after %s: %v", what, rerr), nil)
+				return
+			}
+			if g, ok := got[op.ID]; !ok {
+				delete(mc.Docs, op.ID)
+			} else if !val.Equal(g, old) {
+				e.fail([]string{"C01", "C03"}, "C03/touched-unmatched", fmt.Sprintf("after %s: %s", what, describeDocDiff(op.ID, old, g)), nil)
+				return
+			}
+			e.afterWrite(op.Coll, []string{"C01", "C12"}, what)
+		case outFailed, outCapacity:
+			e.noEffect(before, what, nil)
+		case outCrashed:
+			e.restartAfterCrash()
+			if e.V != nil {
+				return
+			}
+			if got, _, rerr := e.readColl(op.Coll); rerr == nil && e.V == nil {
+				if _, ok := got[op.ID]; !ok {
+					delete(mc.Docs, op.ID)
+				}
+			}
+			e.compareAllAs([]string{"C05"}, "C05/crash-atomicity", what+" (crashed)")
+		}
+		return
+	}
 	if op.K == "ReplaceById" {
 		newDoc = op.docMaps()[0]
 		nid, _ := newDoc["_id"].(string)
